@@ -140,3 +140,69 @@ func Rejects(sp Spec, prelude []any, tr Trace) (bool, error) {
 	}
 	return len(o.Rejects) == 1, nil
 }
+
+// ValidateChunks splits the traces into chunks of at most chunk traces and
+// validates up to par chunks concurrently (one TLC process each).
+func ValidateChunks(sp Spec, prelude []any, traces []Trace, maxRejects, chunk, par int) (*Outcome, error) {
+	if chunk <= 0 || len(traces) <= chunk {
+		return Validate(sp, prelude, traces, maxRejects)
+	}
+	if par <= 0 {
+		par = 1
+	}
+	if sp.Heap == "" {
+		sp.Heap = "4g"
+	}
+	type res struct {
+		o   *Outcome
+		err error
+	}
+	var parts [][]Trace
+	for i := 0; i < len(traces); i += chunk {
+		j := i + chunk
+		if j > len(traces) {
+			j = len(traces)
+		}
+		parts = append(parts, traces[i:j])
+	}
+	results := make([]res, len(parts))
+	sem := make(chan struct{}, par)
+	done := make(chan int, len(parts))
+	t0 := time.Now()
+	for i := range parts {
+		go func(i int) {
+			sem <- struct{}{}
+			o, err := Validate(sp, prelude, parts[i], maxRejects)
+			results[i] = res{o, err}
+			<-sem
+			done <- i
+		}(i)
+	}
+	for range parts {
+		<-done
+	}
+	out := &Outcome{Traces: len(traces)}
+	var firstErr error
+	off := 0
+	for i, r := range results {
+		if r.o != nil {
+			out.Lines += r.o.Lines
+			out.Accepted += r.o.Accepted
+			out.TLCStates += r.o.TLCStates
+			out.TLCTrans += r.o.TLCTrans
+			out.Runs += r.o.Runs
+			for _, rj := range r.o.Rejects {
+				rj.TraceIdx += off
+				if len(out.Rejects) < maxRejects {
+					out.Rejects = append(out.Rejects, rj)
+				}
+			}
+		}
+		if r.err != nil && firstErr == nil {
+			firstErr = r.err
+		}
+		off += len(parts[i])
+	}
+	out.Wall = time.Since(t0).Seconds()
+	return out, firstErr
+}
